@@ -493,8 +493,14 @@ class Truncate(CorruptFamily):
 
     def generate(self, rng, tier):
         n_any, n_valid = (4, 2) if tier == "quick" else (30, 10)
-        for desc, valid in base_cases(rng, n_any, n_valid, tiny_p=0.7):
-            yield {"desc": desc, "env": pick_env(rng, valid), "step": 1, "coq_stride": 7 if tier == "quick" else 1}
+        # every read path is covered whatever the seed: eager, skip_tables, skip_reference_sequence,
+        # both; path / file object / 2nd object on a stream
+        paths = [(False, False), (True, False), (False, True), (True, True)]
+        for k, (desc, valid) in enumerate(base_cases(rng, n_any, n_valid, tiny_p=0.7)):
+            env = pick_env(rng, valid)
+            env["skip_tables"], env["skip_ref"] = paths[k % 4]
+            env["mode"] = MODES[(k // 2) % 3]
+            yield {"desc": desc, "env": env, "step": 1, "coq_stride": 7 if tier == "quick" else 1}
 
     def observe(self, case):
         with Scratch() as tmp:
@@ -868,11 +874,36 @@ class Data(CorruptFamily):
         span = lay.size - lay.data_start
         if span <= 0:
             return lay, eds
+        # offset columns: every entry raised above its successor / lowered below its predecessor,
+        # first entry non-zero, last entry off by one (whole-entry rewrites)
+        for it in lay.p["items"]:
+            key = it["key"].decode("latin1")
+            if not key.endswith("_offset") or it["type"] not in (5, 7):
+                continue
+            w = 4 if it["type"] == 5 else 8
+            a0 = it["array_start"]
+            vals = [int.from_bytes(base[a0 + w * j:a0 + w * (j + 1)], "little") for j in range(it["array_len"])]
+            n = len(vals) - 1
+
+            def put(j, v):
+                if 0 <= v < 2 ** (8 * w) and v != vals[j]:
+                    eds.append([(a0 + w * j, v.to_bytes(w, "little"))])
+            for j in range(n + 1):
+                if j < n:
+                    put(j, vals[j + 1] + 1)
+                    put(j, vals[j + 1] + 3)
+                    put(j, vals[-1] + 1)
+                if j > 0:
+                    put(j, vals[j - 1] - 1)
+            put(0, 1)
+            put(n, vals[n] + 1)
+            put(n, vals[n] - 1)
         # every data byte once (for small files), then random multi-byte edits
+        nsys = len(eds)
         for pos in range(lay.data_start, lay.size):
-            if len(eds) < case["n"] // 2:
+            if len(eds) - nsys < case["n"] // 2:
                 eds.append([(pos, bytes([base[pos] ^ rng.choice([1, 0x80, 0xFF, 0x10])]))])
-        while len(eds) < case["n"]:
+        while len(eds) - nsys < case["n"]:
             k = rng.randrange(1, 6)
             eds.append([(rng.randrange(lay.data_start, lay.size), bytes([rng.randrange(256)])) for _ in range(k)])
         return lay, [e for e in eds if apply_edit(base, e) != base]
@@ -936,7 +967,7 @@ class Data(CorruptFamily):
         codes = unrle(obs["codes"])
         terms = []
         for k, (ed, c) in enumerate(zip(eds, codes)):
-            if c in ("hang", "adapter") or (k % 3 and c != "crash"):
+            if c in ("hang", "adapter") or (k % 3 and c != "crash" and k >= 60):
                 continue
             subs = "[" + "; ".join("(%d, %s)" % (p, clist(bs)) for p, bs in ed) + "]"
             terms.append("verdict_agrees (load_verdict %s %s (subst_many f %s)) %s" % (cb(e["skip_tables"]), cb(e["skip_ref"]), subs, vcode(c, e["api"])))
